@@ -217,7 +217,7 @@ class C01(WorkerCheck):
             "nor deadlocks. Non-trivial: >=2 messages taken and >=1 executed; distinct = distinct sequences of "
             "(event kind, delivery) in the trace(s).")
     floors = {"events.yield": 200, "events.task_start": 100, "counters.stop_instants": 20}
-    quick_cases = 1400
+    quick_cases = 3000
     thorough_cases = 60000
     thorough_time = 420.0
     assumptions = [
@@ -350,7 +350,7 @@ class C02(WorkerCheck):
             "ack by the end of processing. Non-trivial: >=2 messages whose processing overlapped in time; distinct "
             "= distinct (event kind, delivery) sequences.")
     floors = {"events.ack": 300, "counters.crash_prefixes_examined": 5000, "events.set_fail": 5}
-    quick_cases = 1600
+    quick_cases = 3000
     thorough_cases = 50000
     assumptions = [
         "an acknowledgement counts at the instant the ack callable's body starts executing",
@@ -488,7 +488,7 @@ class C03(WorkerCheck):
             "message executes; listen() returns (no stall/deadlock). Non-trivial: history contains >=1 non-ok "
             "outcome; distinct = distinct (kind, delivery) sequences.")
     floors = {"events.cb_enter": 2000, "counters.probe_saturated": 50, "events.set_fail": 20}
-    quick_cases = 1000
+    quick_cases = 2000
     thorough_cases = 40000
     assumptions = ["a failing hook means the hook raises an Exception subclass"]
 
@@ -574,7 +574,7 @@ class C04(WorkerCheck):
             "maximum seen per pair is reported. Non-trivial: the backlog exceeded the bound (worker saturated); "
             "distinct = distinct (kind, delivery) sequences.")
     floors = {"events.yield": 1000, "counters.pairs_covered": 20}
-    quick_cases = 800
+    quick_cases = 1600
     thorough_cases = 30000
     assumptions = ["a message is finished when Receiver.callback() has returned (incl. ack)"]
 
@@ -657,7 +657,7 @@ class C05(WorkerCheck):
             "defensible start of the timeout; N => exactly N messages taken. Non-trivial: a shutdown request was "
             "observed while >=1 accepted message was unfinished; distinct = distinct (kind, delivery) sequences.")
     floors = {"events.stop": 200, "events.listen_returned": 300, "counters.stop_instants": 20}
-    quick_cases = 1400
+    quick_cases = 3000
     thorough_cases = 50000
     thorough_time = 420.0
     assumptions = [
@@ -801,7 +801,7 @@ class C06(WorkerCheck):
             "produced by that message and carries its labels. Non-trivial: >=2 executions overlapped in time and "
             ">=1 dependency echo checked; distinct = distinct (kind, delivery) sequences.")
     floors = {"counters.echoes_checked": 3000, "events.dep_open": 500}
-    quick_cases = 1000
+    quick_cases = 2000
     thorough_cases = 40000
     assumptions = ["taskiq_dependencies 1.5.7 as installed in /venv is part of the system under observation"]
 
@@ -866,7 +866,7 @@ class C07(WorkerCheck):
             "failed saves never block this or later messages. Non-trivial: >=1 non-return outcome or timeout "
             "label; distinct = distinct (kind, delivery) sequences plus outcome tuple.")
     floors = {"counters.executions_checked": 2000, "events.set_fail": 50, "counters.timeouts_fired": 20}
-    quick_cases = 1500
+    quick_cases = 3000
     thorough_cases = 50000
 
     def cases(self, rng: random.Random, tier: str, shard: int, nshards: int) -> Iterator[Any]:
@@ -941,7 +941,7 @@ class C10(WorkerCheck):
             "(kind, mw, delivery) sequences.")
     floors = {"counters.messages_checked": 2000, "events.kick_fail": 30, "events.mw:post_save": 100,
               "events.mw:on_error": 100}
-    quick_cases = 1500
+    quick_cases = 3000
     thorough_cases = 50000
 
     def cases(self, rng: random.Random, tier: str, shard: int, nshards: int) -> Iterator[Any]:
@@ -1022,7 +1022,7 @@ class C12(WorkerCheck):
             "ack; exception seen by the dependency iff (failed and propagate). Non-trivial: >=2 yielding "
             "dependencies opened in one execution; distinct = distinct (kind, dep, delivery) sequences.")
     floors = {"counters.executions_checked": 800, "events.dep_close": 2000, "counters.uncached_graphs": 100}
-    quick_cases = 1200
+    quick_cases = 2500
     thorough_cases = 40000
     assumptions = ["taskiq_dependencies 1.5.7 as installed in /venv is part of the system under observation"]
 
